@@ -886,3 +886,39 @@ def key_twins(ctx):
                   'geo.x eq 1 or geo.city.name pr']:
             out.append((t, o, 'dotted-keys'))
     return out
+
+# ----------------------------------------------------------------------------
+# batch 16: sibling comparisons on one path that a rewriting step might fold
+# ----------------------------------------------------------------------------
+def sibling_folds(ctx):
+    """`or` chains of 2..16 equality tests on one path, pairs of bounds that cover the number line, pairs of different constants:
+    a float with a fraction, NaN, an absent / non-numeric attribute make the folded answer wrong.  (text, obj, fam)"""
+    out = []
+    attrs = [F(2.5), F(2.0), I(2), F(float('nan')), ABSENT_, S('2'), ('i64', 2), F(4.999999999), F(-0.0), ('nil',), ('b', True), I(40), F(1e300), ('m', []), F(0.5)]
+    texts = []
+    for n in (2, 3, 4, 5, 8, 16):
+        texts.append(' or '.join('a eq %d' % i for i in range(1, n + 1)))
+        texts.append(' or '.join('a eq %d.0' % i for i in range(1, n + 1)))
+        texts.append(' and '.join('a ne %d' % i for i in range(1, n + 1)))
+        texts.append('(' + ' or '.join('a eq %d' % i for i in range(1, n + 1)) + ') and k eq 1')
+        texts.append(' or '.join('a eq "%d"' % i for i in range(1, n + 1)))
+    for (lo, hi) in [(18, 65), (0, 0), (5, 4), (1, 100)]:
+        for (g, l) in [('gt', 'lt'), ('ge', 'le'), ('gt', 'le'), ('ge', 'lt')]:
+            texts += ['a %s %d or a %s %d' % (g, lo, l, hi), 'a %s %d or a %s %d' % (l, hi, g, lo), '(a %s %d or a %s %d) and k eq 1' % (g, lo, l, hi), 'not (a %s %d or a %s %d)' % (g, lo, l, hi),
+                      'a %s %d and a %s %d' % (l, lo, g, hi), 'a %s %d.5 or a %s %d.5' % (g, lo, l, hi)]
+    texts += ['a eq 0 and a eq -0', 'a eq 2 and a eq 2.0', 'a eq 2.50 and a eq 2.5', 'a eq "x" and a eq "X"', 'a ne 2 or a ne 3', 'a eq 2 or a ne 2', 'a lt 2 or a eq 2 or a gt 2', 'a eq null or a ne null', 'a pr or not (a pr)',
+              'a eq true or a eq false', 'a eq true or a ne true']
+    for t in texts:
+        for a in attrs:
+            out.append((t, obj({'k': I(1)}) if a is ABSENT_ else obj({'a': a, 'k': I(1)}), 'sibling-folds'))
+    return out
+
+def absorption_operands(ctx):
+    """(L, group, object): L repeated inside a group next to an operand that fails / is undecided"""
+    out = []
+    for L in ('p eq 1', 'p pr', 'p gt 5'):
+        for B in ('q co 5', 'q gt null', 'q eq 99999999999999999999', 'zz eq 1', 'q eq 5'):
+            for grp in ('%s and %s' % (B, L), '%s and %s' % (L, B), '%s or %s' % (B, L), '%s or %s' % (L, B)):
+                for o in (obj({'p': I(2), 'q': I(5)}), obj({'p': I(1), 'q': I(5)}), obj({'q': I(5)}), obj({'p': I(9), 'q': S('s')})):
+                    out.append((L, grp, o))
+    return out
